@@ -100,7 +100,10 @@ func genString(rng *vkit.Rand, class string) string {
 	case "control":
 		return vkit.Pick(rng, []string{"nl\nx", "cr\rx", "nul\x00x", "\x01\x02\x1f", "\x7f", "line1\r\nline2"})
 	case "long":
-		n := vkit.Pick(rng, []int{255, 256, 1024, 4097, 70000})
+		n := vkit.Pick(rng, []int{255, 256, 1024, 4097})
+		if rng.Chance(3) {
+			n = 70000
+		}
 		return strings.Repeat("L", n-1) + "é"
 	case "non-utf8":
 		return vkit.Pick(rng, []string{"\xff", "ok\xfe\xffok", "\xc3\x28", "\xed\xa0\x80", "trunc\xe2\x82"})
@@ -266,7 +269,8 @@ func (c *c27) roundTripCase(ser, class string, seed uint64) {
 			c.r.Count("text_serializer_roundtrip_ok", 1)
 		} else {
 			c.r.Count("text_serializer_roundtrip_differs", 1)
-			c.r.Seen("text_serializer_roundtrip_differences", class+"/"+diff)
+			c.r.Seen("text_serializer_roundtrip_difference_string_classes", class)
+			c.r.Seen("text_serializer_roundtrip_difference_fields", diff)
 		}
 		return
 	}
